@@ -218,6 +218,25 @@ type Listener struct {
 
 func NewListener(addr net.Addr) *Listener { return &Listener{Addr_: addr} }
 
+// TempError is a transient accept error that is not a timeout (EMFILE, ECONNABORTED, ...).
+type TempError struct{}
+
+func (TempError) Error() string   { return "accept: too many open files" }
+func (TempError) Timeout() bool   { return false }
+func (TempError) Temporary() bool { return true }
+
+type errConn struct {
+	net.Conn
+	err error
+}
+
+// InjectErr queues an error for Accept to return in place of a connection.
+func (l *Listener) InjectErr(err error) {
+	l.mu.Lock()
+	l.queue = append(l.queue, errConn{err: err})
+	l.mu.Unlock()
+}
+
 // Inject queues a connection for Accept (the server-side end of a Pipe).
 func (l *Listener) Inject(c net.Conn) {
 	l.mu.Lock()
@@ -232,6 +251,9 @@ func (l *Listener) Accept() (net.Conn, error) {
 	if len(l.queue) > 0 && !l.closed {
 		c := l.queue[0]
 		l.queue = l.queue[1:]
+		if e, ok := c.(errConn); ok {
+			return nil, e.err
+		}
 		l.Accepted++
 		l.AcceptedConns = append(l.AcceptedConns, c)
 		return c, nil
